@@ -1,8 +1,12 @@
 //! C12: fraction approximation never misstates a value
 
 use crate::common::*;
-use cooklang::quantity::Number;
+use cooklang::convert::units_file::{Fractions, FractionsConfigHelper, UnitsFile};
+use cooklang::convert::{ConvertTo, ConverterBuilder, PhysicalQuantity, System, Unit};
+use cooklang::quantity::{Number, Quantity, Value};
+use cooklang::Converter;
 use serde_json::{json, Value as J};
+use std::sync::Arc;
 
 const OFFSETS_Q: [f64; 5] = [0.0, 0.25, 0.5, 0.75, 0.999];
 const OFFSETS_T: [f64; 17] = [0.0, 0.0625, 0.125, 0.1875, 0.25, 0.3125, 0.375, 0.4375, 0.5, 0.5625, 0.625, 0.6875, 0.75, 0.8125, 0.875, 0.9375, 0.999];
@@ -123,7 +127,232 @@ pub fn check_one(value: f64, acc: f32, max_den: u8, max_whole: u32, last_display
     }
 }
 
+// ---------------------------------------------------------------------------
+// the callers: try_fraction / fit_fraction with the per-unit limits of a converter
+
+#[derive(Clone, Copy, Debug)]
+struct Limits {
+    enabled: bool,
+    accuracy: f32,
+    max_den: u8,
+    max_whole: u32,
+}
+
+fn or(a: FractionsConfigHelper, b: FractionsConfigHelper) -> FractionsConfigHelper {
+    FractionsConfigHelper { enabled: a.enabled.or(b.enabled), accuracy: a.accuracy.or(b.accuracy), max_denominator: a.max_denominator.or(b.max_denominator), max_whole: a.max_whole.or(b.max_whole) }
+}
+
+/// reference: the limits the units files give a unit (layers in order: all, system, quantity, unit;
+/// a unit entry inherits what it leaves open, the other levels stand alone)
+fn limits_of(layers: &[Fractions], u: &Unit) -> Limits {
+    let (mut all, mut metric, mut imperial) = (None, None, None);
+    let mut quantity: std::collections::HashMap<PhysicalQuantity, FractionsConfigHelper> = Default::default();
+    let mut unit: Option<FractionsConfigHelper> = None;
+    for f in layers {
+        all = f.all.map(|c| c.get()).or(all);
+        metric = f.metric.map(|c| c.get()).or(metric);
+        imperial = f.imperial.map(|c| c.get()).or(imperial);
+        for (q, c) in &f.quantity {
+            quantity.insert(*q, c.get());
+        }
+    }
+    for f in layers {
+        for (k, c) in &f.unit {
+            if u.names.iter().chain(&u.symbols).chain(&u.aliases).any(|x| &**x == k.as_str()) {
+                unit = Some(c.get());
+            }
+        }
+    }
+    let system = match u.system {
+        Some(System::Metric) => metric,
+        Some(System::Imperial) => imperial,
+        None => None,
+    };
+    let q = quantity.get(&u.physical_quantity).copied();
+    let chosen = match unit {
+        Some(mut c) => {
+            for inherit in [q, system, all].into_iter().flatten() {
+                c = or(c, inherit);
+            }
+            Some(c)
+        }
+        None => q.or(system).or(all),
+    };
+    let c = chosen.unwrap_or_default();
+    Limits { enabled: c.enabled.unwrap_or(false), accuracy: c.accuracy.unwrap_or(0.05).clamp(0.0, 1.0), max_den: c.max_denominator.unwrap_or(4).clamp(1, 16), max_whole: c.max_whole.unwrap_or(u32::MAX) }
+}
+
+struct FracEnv {
+    name: &'static str,
+    conv: Converter,
+    layers: Vec<Fractions>,
+    units: Vec<Arc<Unit>>,
+}
+
+fn frac_envs() -> Vec<FracEnv> {
+    let mut v = Vec::new();
+    let bundled = UnitsFile::bundled();
+    let base_layers: Vec<Fractions> = bundled.fractions.clone().into_iter().collect();
+    let mk = |name: &'static str, conv: Converter, layers: Vec<Fractions>| {
+        let units: Vec<Arc<Unit>> = conv.all_units().filter(|u| limits_of(&layers, u).enabled).filter_map(|u| conv.find_unit(u.symbol())).collect();
+        FracEnv { name, conv, layers, units }
+    };
+    v.push(mk("bundled units", Converter::bundled(), base_layers.clone()));
+    // a layer that gives neighbouring units clearly different limits and turns fractions on for one metric unit
+    let layer_src = "[fractions.unit]\ncup = { max_whole = 3, max_denominator = 2 }\n\"fl oz\" = { max_denominator = 16, accuracy = 0.01 }\noz = { max_denominator = 10 }\npint = { max_whole = 1 }\ndl = { enabled = true, max_denominator = 2 }\n";
+    if let Ok(layer) = toml::from_str::<UnitsFile>(layer_src) {
+        let mut layers = base_layers.clone();
+        layers.extend(layer.fractions.clone());
+        if let Ok(conv) = ConverterBuilder::new().with_units_file(UnitsFile::bundled()).and_then(|b| b.with_units_file(layer)).and_then(|b| b.finish()) {
+            v.push(mk("bundled units + a layer with per-unit fraction limits", conv, layers));
+        }
+    }
+    v
+}
+
+const FRAC_OPS: [&str; 5] = ["fit", "try_fraction", "convert(Imperial)", "convert(Metric)", "convert(SameSystem)"];
+
+fn frac_values(tier: Tier) -> Vec<f64> {
+    // sixteenths and thirds up to 12, tenths, and values around the whole limits
+    let mut v: Vec<f64> = Vec::new();
+    let top = tier.pick(6, 12);
+    for k in 1..=(16 * top) {
+        v.push(k as f64 / 16.0);
+    }
+    for k in 1..=(3 * top) {
+        if k % 3 != 0 {
+            v.push(k as f64 / 3.0);
+        }
+    }
+    for k in [1, 3, 7, 9, 11, 13, 33, 47] {
+        v.push(k as f64 / 10.0);
+    }
+    v.extend([16.5, 24.0, 31.75, 48.0, 100.5, 1000.25]);
+    v
+}
+
+fn check_fraction_op(env: &FracEnv, unit: &Arc<Unit>, start: f64, end: Option<f64>, op: &str) -> (Option<Violation>, bool) {
+    let value = match end {
+        None => Value::Number(Number::Regular(start)),
+        Some(e) => Value::Range { start: Number::Regular(start), end: Number::Regular(e) },
+    };
+    let mut q = Quantity::new(value, Some(unit.symbol().to_string()));
+    let conv = &env.conv;
+    let ok = match op {
+        "fit" => q.fit(conv).is_ok(),
+        "try_fraction" => {
+            q.try_fraction(conv);
+            true
+        }
+        "convert(Imperial)" => q.convert(System::Imperial, conv).is_ok(),
+        "convert(Metric)" => q.convert(System::Metric, conv).is_ok(),
+        _ => q.convert(ConvertTo::SameSystem, conv).is_ok(),
+    };
+    if !ok {
+        return (None, false);
+    }
+    let Some(new_unit) = q.unit_info(conv) else { return (None, false) };
+    let lim = limits_of(&env.layers, &new_unit);
+    let case = json!({"kind": "converter", "env": env.name, "unit": unit.symbol(), "start_bits": start.to_bits(), "end_bits": end.map(|e| e.to_bits()), "op": op});
+    let numbers: Vec<(&str, f64, Number)> = match q.value() {
+        Value::Number(n) => vec![("value", start, *n)],
+        Value::Range { start: s, end: e } => vec![("range start", start, *s), ("range end", end.unwrap_or(start), *e)],
+        Value::Text(_) => vec![],
+    };
+    let mut fractions = false;
+    for (what, original, n) in numbers {
+        let Number::Fraction { whole, num, den, err } = n else { continue };
+        fractions = true;
+        let desc = format!("{op} of {start}{} {} with {}: {what} became {n:?} {}; the limits of that unit are {lim:?}", end.map(|e| format!("-{e}")).unwrap_or_default(), unit.symbol(), env.name, new_unit.symbol());
+        let class = if !lim.enabled {
+            Some("fraction in a unit whose fractions are disabled")
+        } else if num != 0 && den > lim.max_den as u32 {
+            Some("denominator above the maximum of the unit")
+        } else if num != 0 && (!DENOMS.contains(&den) || num >= den) {
+            Some("unsupported fraction")
+        } else if whole > lim.max_whole {
+            Some("whole part above the maximum of the unit")
+        } else if !(err.abs() <= lim.accuracy as f64 * n.value() * (1.0 + 1e-9)) {
+            Some("error above the accuracy of the unit")
+        } else {
+            // exact value: the converted original
+            let expect = original * unit.ratio / new_unit.ratio;
+            if unit.difference == 0.0 && new_unit.difference == 0.0 && !((n.value() - expect).abs() <= expect.abs() * 1e-9) {
+                Some("exact value of the fraction differs from the converted input")
+            } else {
+                None
+            }
+        };
+        if let Some(class) = class {
+            return (Some(Violation::new(class, desc, case)), true);
+        }
+    }
+    (None, fractions)
+}
+
+fn converter_sweep(tier: Tier) {
+    let c = ctx();
+    let envs = Arc::new(frac_envs());
+    let values = Arc::new(frac_values(tier));
+    let nv = values.len() as u64;
+    // range ends: every value; range starts: every 5th value
+    let starts: Arc<Vec<f64>> = Arc::new(values.iter().copied().step_by(tier.pick(3, 1)).collect());
+    for (ei, env) in envs.iter().enumerate() {
+        c.part(json!({"converter": env.name, "units_with_fractions_enabled": env.units.iter().map(|u| format!("{} {:?}", u.symbol(), limits_of(&env.layers, u))).collect::<Vec<_>>(), "values": nv, "range_starts": starts.len()}));
+        let nu = env.units.len() as u64;
+        let per_unit = nv + starts.len() as u64 * nv;
+        let total = nu * per_unit;
+        let (e2, v2, s2) = (envs.clone(), values.clone(), starts.clone());
+        let decode = move |idx: u64| -> (usize, f64, Option<f64>) {
+            let u = (idx / per_unit) as usize;
+            let r = idx % per_unit;
+            if r < nv {
+                (u, v2[r as usize], None)
+            } else {
+                let r = r - nv;
+                (u, s2[(r / nv) as usize], Some(v2[(r % nv) as usize]))
+            }
+        };
+        let d2 = decode.clone();
+        let describe = move |idx: u64| {
+            let (u, s, e) = d2(idx);
+            json!({"kind": "converter", "env": e2[ei].name, "unit": e2[ei].units[u].symbol(), "start": s, "end": e})
+        };
+        let envs2 = envs.clone();
+        sweep(&format!("C12 callers ({}): {} units x ({} values + {} x {} ranges) x 5 operations", env.name, nu, nv, starts.len(), nv), total, describe, move |idx, local| {
+            let env = &envs2[ei];
+            let (u, s, e) = decode(idx);
+            if let Some(e) = e {
+                if e <= s {
+                    return vec![];
+                }
+            }
+            let mut out = Vec::new();
+            for op in FRAC_OPS {
+                local.evaluations += 1;
+                let (v, nontrivial) = check_fraction_op(env, &env.units[u], s, e, op);
+                if nontrivial {
+                    local.nontrivial += 1;
+                }
+                out.extend(v);
+            }
+            out
+        });
+        if c.has_violations() {
+            return;
+        }
+    }
+}
+
 pub fn replay(case: &J) -> Vec<Violation> {
+    if case["kind"] == "converter" {
+        let envs = frac_envs();
+        let Some(env) = envs.iter().find(|e| Some(e.name) == case["env"].as_str()) else { return vec![] };
+        let Some(unit) = env.conv.find_unit(case["unit"].as_str().unwrap_or("")) else { return vec![] };
+        let start = f64::from_bits(case["start_bits"].as_u64().unwrap_or(0));
+        let end = case["end_bits"].as_u64().map(f64::from_bits);
+        return check_fraction_op(env, &unit, start, end, case["op"].as_str().unwrap_or("fit")).0.into_iter().collect();
+    }
     let value = f64::from_bits(case["value_bits"].as_u64().unwrap_or(0));
     let acc = case["accuracy"].as_f64().unwrap_or(0.05) as f32;
     let max_den = case["max_den"].as_u64().unwrap_or(4) as u8;
@@ -143,7 +372,7 @@ fn value_of(idx: u64, offsets: &[f64]) -> f64 {
 
 pub fn run(tier: Tier) {
     let c = ctx();
-    c.set_rule("complete grid: every cell of the 10^4-cell fraction lookup at 5 (thorough: 17) offsets inside the cell x 14 whole parts (0..6, 99..101, u32::MAX-1, u32::MAX, 2^32, 1e12) x 8 accuracies in [0,1] x every max_den 1..=64 x 6 whole limits, plus non-positive / non-finite / extreme inputs; oracle = the predicate of the property; non-trivial = new_approx returned Some; distinct = distinct (value, parameters) grid points with a Some result");
+    c.set_rule("complete grid: every cell of the 10^4-cell fraction lookup at 5 (thorough: 17) offsets inside the cell x 14 whole parts (0..6, 99..101, u32::MAX-1, u32::MAX, 2^32, 1e12) x 8 accuracies in [0,1] x every max_den 1..=64 x 6 whole limits, plus non-positive / non-finite / extreme inputs; plus the callers: every unit with fractions enabled of two converters (bundled; bundled + a layer with per-unit limits) x values (sixteenths, thirds, tenths) and ranges x {fit, try_fraction, convert to each system, convert within the system}: every fraction in the result must respect the limits the units files give the unit it ends up in (reference computation of the layered limits) and denote the converted input; oracle = the predicate of the property; non-trivial = new_approx returned Some; distinct = distinct (value, parameters) grid points with a Some result");
     let offsets: &'static [f64] = tier.pick(&OFFSETS_Q[..], &OFFSETS_T[..]);
     let cells = 10_000u64;
     let total = cells * offsets.len() as u64 * 14;
@@ -253,5 +482,8 @@ pub fn run(tier: Tier) {
         }
         out
     });
+    if !c.has_violations() {
+        converter_sweep(tier);
+    }
     c.note("distinct_nontrivial counts grid points (value x accuracy x 7 representative denominators, no whole limit) for which a Fraction was returned; every grid point is distinct by construction");
 }
